@@ -169,7 +169,7 @@ Definition presort (e : list T) : list T :=
 Definition crps_gen (clamp : bool) (rows : list frow) : option crout :=
   match filter row_valid rows with
   | [] => None
-  | r0 :: _ as v =>
+  | (r0 :: _) as v =>
       let m := length (snd r0) in
       let w := weight (Z.of_nat (length v)) in
       let sorted := map (fun r => (fst r, presort (snd r))) v in
